@@ -87,7 +87,15 @@ NOTATIONS = ["box", "circle", "roundedbox", "top", "bottom", "left", "right", "u
 class Textbook:
     """Random 'textbook' expressions with a distinct decimal literal planted at (almost) every operand position."""
 
-    def __init__(self, rng, decimal=".", max_depth=4, p_ident=0.25, features=None):
+    COMMON = ["frac", "sup", "sqrt", "sub", "fenced_row", "func", "root", "matrix", "subsup", "bigop"]
+
+    @classmethod
+    def focused_pool(cls, rng):
+        """a small construct pool (two common constructs + one random): the same few constructs then repeat and nest inside each other,
+        which is where rule interactions (optional words, pauses, braille indicators) show"""
+        return rng.sample(cls.COMMON, 2) + [rng.choice(cls.CONSTRUCTS)]
+
+    def __init__(self, rng, decimal=".", max_depth=4, p_ident=0.25, features=None, p_leaf=0.45):
         self.rng = rng
         self.decimal = decimal
         self.max_depth = max_depth
@@ -95,6 +103,7 @@ class Textbook:
         self.literals = []
         self.used = set()
         self.features = features          # None = all
+        self.p_leaf = p_leaf
         self.kind_stack = []
 
     # -- literals ---------------------------------------------------------------------------
@@ -117,7 +126,7 @@ class Textbook:
 
     def operand(self, depth):
         r = self.rng
-        if depth >= self.max_depth or r.random() < 0.45:
+        if depth >= self.max_depth or r.random() < self.p_leaf:
             if r.random() < self.p_ident:
                 return mi(r.choice(VARS + GREEK))
             return self.literal()
